@@ -556,6 +556,9 @@ pub fn run(run: &Run) {
     for h in if thorough { vec![1_040u64, 2_100, 100_000, 1_000_000] } else { vec![1_040u64, 1_000_000] } {
         run_world_at(run, NetID::Custom02, Some(h), &[1, 2], &[(8, false), (3, true), (14, true)], thorough);
     }
+    // far into the chain the inflator (in millionths) times the reward no longer fits 128 bits although the bound itself does:
+    // 140,000,000 blocks, inflator about 2^101
+    run_world_at(run, NetID::Custom02, Some(140_000_000), &[1], &[(14, true)], thorough);
     // the genesis coin on a chain younger than / as old as the Mainnet age threshold
     let g_heights: Vec<u64> = if thorough { vec![1, 2, 50, 99, 100, 101] } else { vec![1, 99, 100] };
     genesis_coin_world(run, NetID::Mainnet, &g_heights, &[(2, false), (8, false), (3, true)], thorough);
